@@ -223,6 +223,9 @@ func (s *scope) lin(v ssa.Value, pr *proof) Lin {
 		out.T[name] = co
 		if _, ok := pr.atoms[name]; !ok {
 			pr.atoms[name] = atomRef{s, s.lc.rep[k]}
+		}
+		if !pr.known[name] {
+			pr.known[name] = true
 			pr.queue = append(pr.queue, name)
 		}
 	}
@@ -238,6 +241,11 @@ type atomRef struct {
 type split struct {
 	key   string
 	cases [][]Cons
+	// nest[i]: indices (in proof.splits) of the splits that apply only inside case i — what was
+	// learnt while that case was built (facts about values first met there, callee summaries,
+	// path conditions of phi edges) must not constrain the other cases
+	nest  [][]int
+	inner bool // listed in some case's nest: not active at the top level
 }
 
 type proof struct {
@@ -251,10 +259,78 @@ type proof struct {
 	errNil map[*ssa.Call]bool
 	errNon map[*ssa.Call]bool
 	notes  []string
+	known  map[string]bool // atoms this proof (or an ancestor, before this one was created) has queued
+	depth  int             // nesting depth of case proofs
+	budget *int            // case proofs still allowed under the same top-level proof
 }
 
 func (b *Bounds) newProof() *proof {
-	return &proof{b: b, atoms: map[string]atomRef{}, done: map[string]bool{}, seenSp: map[string]bool{}, errNil: map[*ssa.Call]bool{}, errNon: map[*ssa.Call]bool{}}
+	n := 1500
+	return &proof{b: b, atoms: map[string]atomRef{}, done: map[string]bool{}, seenSp: map[string]bool{}, errNil: map[*ssa.Call]bool{}, errNon: map[*ssa.Call]bool{},
+		known: map[string]bool{}, budget: &n}
+}
+
+// child creates the proof of ONE case of a split of pr: it shares the atom table and what is
+// known about call errors on the path, and starts from copies of what pr has already queued,
+// expanded and split on (so that it expands only what is new to the case, and a sibling case can
+// learn the same things again).
+func (pr *proof) child() *proof {
+	sub := &proof{b: pr.b, atoms: pr.atoms, errNil: pr.errNil, errNon: pr.errNon, depth: pr.depth + 1, budget: pr.budget,
+		done: make(map[string]bool, len(pr.done)), seenSp: make(map[string]bool, len(pr.seenSp)), known: make(map[string]bool, len(pr.known))}
+	for k := range pr.done {
+		sub.done[k] = true
+	}
+	for k := range pr.seenSp {
+		sub.seenSp[k] = true
+	}
+	for k := range pr.known {
+		sub.known[k] = true
+	}
+	*pr.budget--
+	return sub
+}
+
+// absorb turns the finished case proof sub into a case of a split of pr: the atoms first met in
+// the case are expanded inside it, and the splits it produced become inner splits of that case.
+func (pr *proof) absorb(sub *proof) ([]Cons, []int) {
+	if *pr.budget < 0 || sub.depth > 4 {
+		// out of budget: keep the plain constraints only (dropping detail weakens the case: sound)
+		return sub.cons, nil
+	}
+	sub.expandAtoms()
+	off := len(pr.splits)
+	var idx []int
+	for _, sp := range sub.splits {
+		nsp := sp
+		if len(sp.nest) > 0 {
+			nsp.nest = make([][]int, len(sp.nest))
+			for i, ns := range sp.nest {
+				for _, j := range ns {
+					nsp.nest[i] = append(nsp.nest[i], j+off)
+				}
+			}
+		}
+		if !sp.inner {
+			idx = append(idx, len(pr.splits))
+		}
+		nsp.inner = true
+		pr.splits = append(pr.splits, nsp)
+	}
+	return sub.cons, idx
+}
+
+// begin reserves the key of a split that is about to be built (false: already there).
+func (pr *proof) begin(key string) bool {
+	if pr.seenSp[key] {
+		return false
+	}
+	pr.seenSp[key] = true
+	return true
+}
+
+// pushSplit adds a split whose key was reserved with begin.
+func (pr *proof) pushSplit(key string, cases [][]Cons, nest [][]int) {
+	pr.splits = append(pr.splits, split{key: key, cases: cases, nest: nest})
 }
 
 func (pr *proof) add(cs ...Cons) { pr.cons = append(pr.cons, cs...) }
@@ -264,7 +340,7 @@ func (pr *proof) addSplit(key string, cases [][]Cons) {
 		return
 	}
 	pr.seenSp[key] = true
-	pr.splits = append(pr.splits, split{key, cases})
+	pr.splits = append(pr.splits, split{key: key, cases: cases})
 }
 
 // cmpCons translates "x op y" (already with polarity applied) into
@@ -337,21 +413,18 @@ func (s *scope) blockFacts(pr *proof, blk *ssa.BasicBlock) {
 			key := fmt.Sprintf("flag:%s%p/%v", s.prefix, phi, f.Pol)
 			if !pr.seenSp[key] {
 				alts := ff.Alternatives([]Fact{f}, 0)
-				if len(alts) > 0 && !(len(alts) == 1 && len(alts[0]) == 1 && alts[0][0] == f) {
+				if len(alts) > 0 && !(len(alts) == 1 && len(alts[0]) == 1 && alts[0][0] == f) && pr.begin(key) {
 					var cases [][]Cons
+					var nest [][]int
 					for _, alt := range alts {
-						sub := s.b.newProof()
-						sub.atoms, sub.done, sub.seenSp, sub.errNil, sub.errNon = pr.atoms, pr.done, pr.seenSp, pr.errNil, pr.errNon
-						sub.queue = nil
+						sub := pr.child()
 						for _, g := range alt {
-							// disequalities inside a case become splits of sub, which are
-							// dropped: that only weakens the case (sound)
 							s.factCons(sub, g)
 						}
-						cases = append(cases, sub.cons)
-						pr.queue = append(pr.queue, sub.queue...)
+						cs, ns := pr.absorb(sub)
+						cases, nest = append(cases, cs), append(nest, ns)
 					}
-					pr.addSplit(key, cases)
+					pr.pushSplit(key, cases, nest)
 				}
 			}
 		}
@@ -394,13 +467,14 @@ func (s *scope) boolCaseSplit(pr *proof, call *ssa.Call, want bool) {
 		}
 	}
 	key := fmt.Sprintf("boolcase:%s%p/%v", s.prefix, call, want)
-	if pr.seenSp[key] {
-		return
-	}
 	rets := returnsOf(callee)
 	if len(rets) == 0 || len(rets) > 12 {
 		return
 	}
+	if !pr.begin(key) {
+		return
+	}
+	var nest [][]int
 	ff := s.b.p.Facts(callee)
 	prefix := fmt.Sprintf("%s%s@%p/", s.prefix, callee.Name(), call)
 	cs := s.b.newScope(callee, prefix, s, call)
@@ -414,11 +488,10 @@ func (s *scope) boolCaseSplit(pr *proof, call *ssa.Call, want bool) {
 			if constant.BoolVal(k.Value) != want {
 				continue
 			}
-			sub := s.b.newProof()
-			sub.atoms, sub.done, sub.seenSp, sub.errNil, sub.errNon = pr.atoms, pr.done, pr.seenSp, pr.errNil, pr.errNon
+			sub := pr.child()
 			cs.blockFacts(sub, r.Block())
-			cases = append(cases, sub.cons)
-			pr.queue = append(pr.queue, sub.queue...)
+			cc, ns := pr.absorb(sub)
+			cases, nest = append(cases, cc), append(nest, ns)
 			continue
 		}
 		// the ways the returned expression can have the wanted value
@@ -428,20 +501,19 @@ func (s *scope) boolCaseSplit(pr *proof, call *ssa.Call, want bool) {
 			alts = [][]Fact{{{cond, pol}}}
 		}
 		for _, alt := range alts {
-			sub := s.b.newProof()
-			sub.atoms, sub.done, sub.seenSp, sub.errNil, sub.errNon = pr.atoms, pr.done, pr.seenSp, pr.errNil, pr.errNon
+			sub := pr.child()
 			cs.blockFacts(sub, r.Block())
 			for _, g := range alt {
 				cs.factCons(sub, g)
 			}
-			cases = append(cases, sub.cons)
-			pr.queue = append(pr.queue, sub.queue...)
+			cc, ns := pr.absorb(sub)
+			cases, nest = append(cases, cc), append(nest, ns)
 		}
 	}
 	if len(cases) == 0 {
-		cases = [][]Cons{{{linConst(1)}}}
+		cases, nest = [][]Cons{{{linConst(1)}}}, [][]int{nil}
 	}
-	pr.addSplit(key, cases)
+	pr.pushSplit(key, cases, nest)
 }
 
 // errCaseSplit: the error result of a module callee is known nil / non-nil:
@@ -463,13 +535,14 @@ func (s *scope) errCaseSplit(pr *proof, call *ssa.Call, idx int, isNil bool) {
 		return
 	}
 	key := fmt.Sprintf("errcase:%s%p/%v", s.prefix, call, isNil)
-	if pr.seenSp[key] {
-		return
-	}
 	rets := returnsOf(callee)
 	if len(rets) == 0 || len(rets) > 12 {
 		return
 	}
+	if !pr.begin(key) {
+		return
+	}
+	var nest [][]int
 	ff := s.b.p.Facts(callee)
 	prefix := fmt.Sprintf("%s%s@%p/", s.prefix, callee.Name(), call)
 	cs := s.b.newScope(callee, prefix, s, call)
@@ -489,8 +562,7 @@ func (s *scope) errCaseSplit(pr *proof, call *ssa.Call, idx int, isNil bool) {
 				if isNil && ff.ProvablyNonNil(e, pred, 0) || !isNil && constNil {
 					continue
 				}
-				sub := s.b.newProof()
-				sub.atoms, sub.done, sub.seenSp, sub.errNil, sub.errNon = pr.atoms, pr.done, pr.seenSp, pr.errNil, pr.errNon
+				sub := pr.child()
 				cs.blockFacts(sub, pred)
 				if ef, ok := edgeFact(pred, r.Block()); ok {
 					cs.factCons(sub, ef)
@@ -499,9 +571,8 @@ func (s *scope) errCaseSplit(pr *proof, call *ssa.Call, idx int, isNil bool) {
 				if c2, idx2 := callOf(unspill(e)); c2 != nil && !constNil {
 					cs.errCaseSplit(sub, c2, idx2, isNil)
 				}
-				cases = append(cases, sub.cons)
-				pr.queue = append(pr.queue, sub.queue...)
-				pr.splits = append(pr.splits, sub.splits...)
+				cc, ns := pr.absorb(sub)
+				cases, nest = append(cases, cc), append(nest, ns)
 			}
 			continue
 		}
@@ -516,17 +587,15 @@ func (s *scope) errCaseSplit(pr *proof, call *ssa.Call, idx int, isNil bool) {
 		if !isNil && constNil {
 			continue
 		}
-		sub := s.b.newProof()
-		sub.atoms, sub.done, sub.seenSp, sub.errNil, sub.errNon = pr.atoms, pr.done, pr.seenSp, pr.errNil, pr.errNon
+		sub := pr.child()
 		cs.blockFacts(sub, r.Block())
-		cases = append(cases, sub.cons)
-		pr.queue = append(pr.queue, sub.queue...)
-		pr.splits = append(pr.splits, sub.splits...)
+		cc, ns := pr.absorb(sub)
+		cases, nest = append(cases, cc), append(nest, ns)
 	}
 	if len(cases) == 0 {
-		cases = [][]Cons{{{linConst(1)}}} // no compatible return: contradiction
+		cases, nest = [][]Cons{{{linConst(1)}}}, [][]int{nil} // no compatible return: contradiction
 	}
-	pr.addSplit(key, cases)
+	pr.pushSplit(key, cases, nest)
 }
 
 // expandAtoms generates the facts known about every atom that entered the
@@ -572,6 +641,9 @@ func (s *scope) lenLin(x ssa.Value, pr *proof) (Lin, bool) {
 	full := s.prefix + name
 	if _, ok := pr.atoms[full]; !ok {
 		pr.atoms[full] = atomRef{s, lenMarker{x: unspill(x)}}
+	}
+	if !pr.known[full] {
+		pr.known[full] = true
 		pr.queue = append(pr.queue, full)
 	}
 	return Lin{T: map[string]int64{full: 1}}, true
@@ -1134,15 +1206,14 @@ func (s *scope) phiLenFacts(pr *proof, a Lin, x *ssa.Phi) {
 // of blk: case i = "came through predecessor i".
 func (s *scope) phiBlockSplit(pr *proof, blk *ssa.BasicBlock) {
 	key := fmt.Sprintf("phi:%s%p", s.prefix, blk)
-	if pr.seenSp[key] {
+	if !pr.begin(key) {
 		return
 	}
 	ff := s.b.p.Facts(s.fn)
 	var cases [][]Cons
+	var nest [][]int
 	for i, pred := range blk.Preds {
-		sub := s.b.newProof()
-		sub.atoms, sub.done, sub.seenSp, sub.errNil, sub.errNon = pr.atoms, pr.done, pr.seenSp, pr.errNil, pr.errNon
-		sub.queue = nil
+		sub := pr.child()
 		for _, in := range blk.Instrs {
 			phi, ok := in.(*ssa.Phi)
 			if !ok {
@@ -1162,12 +1233,10 @@ func (s *scope) phiBlockSplit(pr *proof, blk *ssa.BasicBlock) {
 		if ef, ok := edgeFact(pred, blk); ok {
 			s.factCons(sub, ef)
 		}
-		// nested != inside a case: keep only its plain constraints (sound: dropping a disjunct's detail weakens the case)
-		cases = append(cases, sub.cons)
-		pr.queue = append(pr.queue, sub.queue...)
-		pr.splits = append(pr.splits, sub.splits...)
+		cc, ns := pr.absorb(sub)
+		cases, nest = append(cases, cc), append(nest, ns)
 	}
-	pr.addSplit(key, cases)
+	pr.pushSplit(key, cases, nest)
 }
 
 func (s *scope) paramFacts(pr *proof, a Lin, x *ssa.Parameter) {
@@ -1278,9 +1347,11 @@ func (b *Bounds) proveCtx(fn *ssa.Function, blk *ssa.BasicBlock, mk func(s *scop
 				}
 			}
 		}
-		all := make([]int, len(pr.splits))
-		for i := range all {
-			all[i] = i
+		var all []int
+		for i, sp := range pr.splits {
+			if !sp.inner {
+				all = append(all, i)
+			}
 		}
 		if !pr.refute(pr.cons, 0, all) {
 			ok, why = false, fmt.Sprintf("%d facts are satisfiable", len(pr.cons))
@@ -1375,6 +1446,9 @@ func relevantSplits(pr *proof, neg Cons) []int {
 	}
 	var out []int
 	for i, sp := range pr.splits {
+		if sp.inner {
+			continue
+		}
 		hit := false
 		for _, cs := range sp.cases {
 			for _, c := range cs {
@@ -1398,7 +1472,7 @@ func (pr *proof) refute(cons []Cons, depth int, splits []int) bool {
 	if infeasible(cons) {
 		return true
 	}
-	if len(splits) == 0 || depth > 10 {
+	if len(splits) == 0 || depth > 12 {
 		return false
 	}
 	// try each remaining split as the next one to apply; prefer the one that closes all its cases directly
@@ -1419,8 +1493,13 @@ func (pr *proof) refute(cons []Cons, depth int, splits []int) bool {
 	// otherwise commit to the first split and recurse
 	si := splits[0]
 	rest := splits[1:]
-	for _, cs := range pr.splits[si].cases {
-		if !pr.refute(append(append([]Cons{}, cons...), cs...), depth+1, rest) {
+	for ci, cs := range pr.splits[si].cases {
+		act := rest
+		if ci < len(pr.splits[si].nest) && len(pr.splits[si].nest[ci]) > 0 {
+			// what was learnt inside this case applies from here on
+			act = append(append([]int{}, pr.splits[si].nest[ci]...), rest...)
+		}
+		if !pr.refute(append(append([]Cons{}, cons...), cs...), depth+1, act) {
 			return false
 		}
 	}
